@@ -48,6 +48,28 @@ Section Access.
     wildcard || existsb (fun w => (id_key w =? author e)%N) W.
 End Access.
 
+(** * The write list a controller enforces
+
+    The database is configured with a write list (identity ids, possibly the wildcard).
+    What the access controller ENFORCES depends on its type:
+    - [ACIpfs] (accesscontroller/ipfs, the default type): an empty list is replaced by the
+      identity of whoever constructs the controller on creation, i.e. the creator of the
+      database; the resulting list is saved in IPFS, named by the database manifest, and
+      loaded by every opener;
+    - [ACSimple] (accesscontroller/simple): the list is taken as it is from the options
+      of whoever opens the database (nothing is persisted: all openers pass the agreed
+      list); an empty or absent list means that NOBODY may write, not even the creator.
+    (The third type of the original, "orbitdb", cannot be constructed in this port: its
+    constructor panics; it is not modelled.) *)
+Inductive ac_type := ACIpfs | ACSimple.
+
+Definition enforced_writers (t : ac_type) (creator : N) (configured : list N) (wildcard : bool) : list N :=
+  match configured with
+  | [] => if wildcard then []
+          else match t with ACIpfs => [creator] | ACSimple => [] end
+  | _ => configured
+  end.
+
 (** * Announced heads ([BaseStore.Sync]) *)
 
 (** A head as it arrives in an announcement: its content and the address it claims.
